@@ -73,9 +73,25 @@ CLAIMS = {
             "Exploration: requests with generated type/flags/payload are sent to NETLINK_ROUTE; the kernel refuses them and echoes the request, so header length, type, flags, port id, sequence and payload on the wire are observed through the kernel and compared with what was sent and returned. Datagrams of every length 1..64 from a user-space sender (unicast and multicast) must be refused; the audit parser is swept over every buffer length. N x M concurrent sends must give distinct, per-goroutine increasing sequences equal to those on the wire.",
             "Needs AF_NETLINK (undecided otherwise). A kernel datagram of exactly 16 bytes cannot be provoked in the sandbox, so that boundary of NetlinkClient.Receive is not reached.",
             "DESIGN.md section 5, C18"),
+    "C09": ("property testing (rapid) with taint tracking: kernel-style event builder with unique-token values, 'nothing lost' decided by searching the tokens in the event; exhaustive sweep of all 65536 st_mode values",
+            "Exploration: events (single records of many types, SYSCALL groups with any subset/order of CWD, PATH x n, EXECVE, SOCKADDR, PROCTITLE, AVC and other records, key collisions, degenerate groups) are written by the independent encoder with a unique token in every value; after coalescing every (key, value) of every record must be found in the event or be named by a warning, identity must be the first record's, and a file summary must mirror exactly one PATH record. All 2^16 modes are swept on the selected PATH. One known finding (non-regular file types summarised as 'file') is matched by its exact shape and excluded.",
+            "device may be rdev or dev; object type unasserted for S_IFMT values outside the seven valid types; vocabulary values checked under their key.",
+            "DESIGN.md section 5, C09"),
+    "C15": ("stateful property testing (rapid): histories of coalesce/resolve calls over a pool of message groups with deep snapshots as oracle; race-detector stress comparing concurrent with sequential results",
+            "Exploration: pools of message groups (well-formed events and damaged text) are coalesced and resolved in generated orders, repeatedly; after every call the Data/Tags/ToMapStr snapshots of every message and the deep copies of every earlier event must be unchanged, and a repeated coalescing must give an equal event. Eight goroutines coalesce and resolve disjoint groups with cold shared caches under -race and must reproduce the sequential results.",
+            "Warnings compared as sorted texts (their order comes from map iteration); nil/empty containers not distinguished.",
+            "DESIGN.md section 5, C15"),
+    "C20": ("bounded-exhaustive enumeration of every table entry with inverse/consistency oracles (no randomness)",
+            "Exploration (exhaustive over finite tables): all 65 536 record types both ways and through text marshalling, every name of the name->type table, every errno entry both ways, every arch name/code (also through rule.Build), every syscall table entry, every rule field/operator/comparison through Build -> ToCommandLine -> Build, every syscall and record type named in normalizations.yaml through the exported loader. The space is finite and enumerated completely on every run.",
+            "Internal consistency only (agreement with the kernel is C06/C12/C16); the unexported name->type table is read from the generated source of the working tree.",
+            "DESIGN.md section 5, C20"),
+    "C11": ("schedule exploration with a harness-owned cooperative scheduler (yield hook, build tag verif): random schedules generated and shrunk by rapid, bounded-exhaustive depth-first enumeration of all schedules of small programs, plus race-detector stress on real threads",
+            "Exploration: interleavings at the granularity of the Reassembler's atomic steps are generated values. 3 000 (quick) / 800 000 (thorough) random program+schedule cases and the exhaustive enumeration of every schedule of 14 (quick) / 20 (thorough) catalogue programs (up to 2 million schedules each) check at-most-once delivery, single-sequence callbacks, exactly-once delivery of everything pushed before Close, exactly one successful Close and absence of deadlock; re-entrant callbacks included. Races inside a step are sampled by the -race stress.",
+            "Needs the verif hook (add-only yield calls). Exhaustive only for small programs and only at yield-point granularity.",
+            "DESIGN.md section 5, C11"),
 }
 
-NOT_YET = "check not built yet (construction in progress; see DESIGN.md section 11)"
+NOT_YET = "not claimed"
 
 
 def main():
